@@ -25,7 +25,7 @@ Clauses of the statement and the theorems that carry them
 * the bare public function: `estimate_no_panic` (exact precondition; F07 witnesses as examples).
 -/
 namespace Chewing.C08
-open Chewing Gen.Est Gen.Learn
+open Chewing Chewing.Learn Gen.Est Gen.Learn
 
 /-! ## The bare function `LaxUserFreqEstimate::estimate` (F07 is recorded against it, not against C08) -/
 
@@ -133,12 +133,41 @@ theorem learn_records (ctx : LearnCtx) (symbols : List Sym) (ivs : List Interval
   obtain ⟨a, b⟩ := learnAll_live ctx _ u u' h
   exact ⟨b, a⟩
 
+/-! a concrete commit: buffer 測試 | 甲 | 乙 | 的 with 測試 known to the system dictionary (frequency 40, homophone at 100) -/
+def exSys : List Entry := [([1, 2], { text := [28204, 35430], freq := 40 }), ([1, 2], { text := [20874, 35430], freq := 100 })]
+def exUser : UserMap := [(([9], [30002]), (7, 3))]
+def exSymbols : List Sym := [.syl 1, .syl 2, .syl 3, .syl 4, .syl 5]
+def exIvs : List Interval :=
+  [{ start := 0, stop := 2, isPhrase := true, text := [28204, 35430] }, { start := 2, stop := 3, isPhrase := true, text := [30002] },
+   { start := 3, stop := 4, isPhrase := true, text := [20057] }, { start := 4, stop := 5, isPhrase := true, text := [30340] }]
+
+/-- hypotheses of `learn_monotone` / `commit_monotone` / `learn_records` are satisfiable -/
+example : FreqBounded exSys exUser := by
+  unfold FreqBounded exSys exUser
+  decide
+
+example :
+    commitLearn false { sys := exSys, lifetime := 77 } exSymbols exIvs exUser
+      = .ok [(([5], [30340]), (1, 0)), (([3, 4], [30002, 20057]), (1, 0)), (([1, 2], [28204, 35430]), (53, 77)), (([9], [30002]), (7, 3))] := by
+  decide
+
 /-- every multi-character dictionary phrase of the committed conversion is a learn unit, under exactly the
     syllables it covers -/
 theorem multi_char_is_unit (symbols : List Sym) (ivs : List Interval) (iv : Interval)
     (hm : iv ∈ ivs) (hph : iv.isPhrase = true) (hlen : iv.stop - iv.start ≠ 1) :
     (keyOf (segOf symbols iv), iv.text) ∈ learnUnits symbols ivs :=
   nonjoinable_phrase_unit symbols ivs iv hm hph (by simp [joinable, hph, hlen]) [] []
+
+/-- clause "records every multi-character phrase … under its syllables", spelled out: a multi-character phrase
+    interval over syllables `k` (as many characters as syllables) is live under `k` after the commit -/
+theorem learn_records_multi (ctx : LearnCtx) (symbols : List Sym) (ivs : List Interval) (u u' : UserMap)
+    (hr : IvsInRange symbols ivs) (h : commitLearn false ctx symbols ivs u = .ok u')
+    (iv : Interval) (hm : iv ∈ ivs) (hph : iv.isPhrase = true) (hlen : iv.stop - iv.start ≠ 1)
+    (k : List Nat) (hseg : segOf symbols iv = k.map Sym.syl) (htl : k.length = iv.text.length) (hne : iv.text ≠ []) :
+    Live u' (k, iv.text) := by
+  have hu := multi_char_is_unit symbols ivs iv hm hph hlen
+  rw [hseg, keyOf_map_syl] at hu
+  exact (learn_records ctx symbols ivs u u' hr h).1 _ hu htl hne
 
 /-- a single character that is a break word is learned by itself (it only cuts the runs around it) — the
     pre-survey note "a break word is never learned" was wrong -/
@@ -247,25 +276,33 @@ example :
     mergedFreq sys [] [1, 2] [65, 66] ≤ othersMax sys [] [1, 2] [65, 66] ∧ othersMax sys [] [1, 2] [65, 66] ≤ freqBound
       ∧ (allEntries sys [] [1, 2]).isEmpty = false := by decide
 
-/-- **top_is_default**: a phrase X whose merged frequency is strictly above every other phrase's of the whole
-    range is what `find_best_phrase` attaches to the whole-range edge; and **provided the first k-path is that
-    single edge** (hypothesis `kpaths = [edge] :: rest`: the breadth-first `shortest_path` from 0 takes the direct
-    edge when it exists — part of the conversion model of C03, compared with the real code by the `default`
-    records of the harness) the conversion of the bare syllables is exactly X: `trim_paths` discards every
-    other path because the single interval contains it, so — unlike the pre-survey assumed — no competing
-    segmentation is ever scored against it. `rest` only has to consist of non-empty intervals inside the range. -/
-theorem top_is_default (ctx : LearnCtx) (u : UserMap) (key : List Nat) (x : Text)
+/-- **top_is_default** (partial: the hypotheses `hg`, `hedge`, `huniq`, `hrest` describe `find_intervals` /
+    `find_k_paths`, which belong to the conversion model of C03 and are not proved here; they are compared with
+    the real code by every `learn default` record of the harness).
+
+    A phrase X whose merged frequency is strictly above every other phrase's of the whole range is what
+    `find_best_phrase` attaches to the whole-range edge.  If node 0 of the interval graph has that edge
+    (`hedge`; one edge per end, `huniq`), then the breadth-first `shortest_path` — the first k-path — is that
+    single edge (`shortestPath_direct`, proved), and `trim_paths` discards every other k-path `rest` because the
+    single interval contains it (`firstConversion_direct`, proved).  So the conversion of the bare syllables is
+    exactly X, and — unlike the pre-survey assumed — no competing segmentation is ever scored against it: the
+    score proviso is vacuous for this engine.  `rest` only has to consist of non-empty intervals inside the range. -/
+theorem top_is_default (ctx : LearnCtx) (u : UserMap) (key : List Nat) (x : Text) (hkey : 0 < key.length)
     (hdom : ∀ t, t ≠ x → mergedFreq ctx.sys u key t < mergedFreq ctx.sys u key x)
-    (edge : PInterval) (rest : List Path)
+    (graph : List (List PInterval)) (es : List PInterval) (rest : List Path)
+    (hg : graph[0]? = some es)
     (hedge : ∃ b, bestPhrase (lookupAll ctx u key) = some b ∧
-      edge = { start := 0, stop := key.length, isPhrase := true, text := b.1, freq := b.2 })
+      ({ start := 0, stop := key.length, isPhrase := true, text := b.1, freq := b.2 } : PInterval) ∈ es)
+    (huniq : ∀ e ∈ es, ∀ e' ∈ es, e.stop = key.length → e'.stop = key.length → e = e')
     (hrest : ∀ c ∈ rest, ∀ o ∈ c, 0 < o.stop ∧ o.stop ≤ key.length) :
-    firstConversion ([edge] :: rest) = some [{ start := 0, stop := key.length, isPhrase := true, text := x }] := by
+    ∃ sp, shortestPath graph (fun _ _ => false) 0 key.length = some sp ∧
+      firstConversion (sp :: rest) = some [{ start := 0, stop := key.length, isPhrase := true, text := x }] := by
   obtain ⟨b, hb, he⟩ := hedge
   rw [bestPhrase_of_dominant ctx u key x hdom] at hb
   injection hb with hb
   subst hb
-  subst he
+  refine ⟨_, shortestPath_direct graph key.length _ es hg he rfl rfl hkey
+    (fun e hm hstop => huniq e hm _ he hstop rfl), ?_⟩
   rw [firstConversion_direct _ rest (fun c hc o ho => by
     have := hrest c hc o ho
     exact ⟨this.1, Nat.zero_le _, this.2⟩)]
@@ -280,21 +317,40 @@ theorem top_is_default_scored (d : Path) (ps : List Path) (hd : d ∈ ps)
 /-- **becomes_default**: the chain of the statement.  Starting from any user dictionary in which X is not above
     its best homophone (≤ 1 000 000), `k ≥ 50` repetitions of "type the syllables, choose X, commit" (each commit =
     `commitLearn false … [single interval X]`, folded by `learnRepeat` via `commit_chosen`) leave a dictionary in
-    which the default conversion of the bare syllables is X — under the first-k-path hypothesis of
-    `top_is_default`. -/
+    which the default conversion of the bare syllables is X — under the graph hypotheses of `top_is_default`. -/
 theorem becomes_default (sys : List Entry) (key : List Nat) (x : Text) (lts : List Nat) (u : UserMap)
     (hlen : key.length = x.length) (hx : x ≠ [])
     (hle : mergedFreq sys u key x ≤ othersMax sys u key x) (hne : (allEntries sys u key).isEmpty = false)
     (hb : othersMax sys u key x ≤ freqBound) (hk : closeSteps + 1 ≤ lts.length) :
     ∃ u', learnRepeat sys key x lts u = .ok u' ∧
-      ∀ (lt : Nat) (edge : PInterval) (rest : List Path),
+      ∀ (lt : Nat) (graph : List (List PInterval)) (es : List PInterval) (rest : List Path),
+        graph[0]? = some es →
         (∃ b, bestPhrase (lookupAll { sys := sys, lifetime := lt } u' key) = some b ∧
-          edge = { start := 0, stop := key.length, isPhrase := true, text := b.1, freq := b.2 }) →
+          ({ start := 0, stop := key.length, isPhrase := true, text := b.1, freq := b.2 } : PInterval) ∈ es) →
+        (∀ e ∈ es, ∀ e' ∈ es, e.stop = key.length → e'.stop = key.length → e = e') →
         (∀ c ∈ rest, ∀ o ∈ c, 0 < o.stop ∧ o.stop ≤ key.length) →
-        firstConversion ([edge] :: rest) = some [{ start := 0, stop := key.length, isPhrase := true, text := x }] := by
+        ∃ sp, shortestPath graph (fun _ _ => false) 0 key.length = some sp ∧
+          firstConversion (sp :: rest) = some [{ start := 0, stop := key.length, isPhrase := true, text := x }] := by
   obtain ⟨u', e1, e2⟩ := becomes_top sys key x lts u hlen hx hle hne hb hk
-  exact ⟨u', e1, fun lt edge rest hedge hrest =>
-    top_is_default { sys := sys, lifetime := lt } u' key x e2 edge rest hedge hrest⟩
+  have hkey : 0 < key.length := by
+    cases x with
+    | nil => exact absurd rfl hx
+    | cons _ _ => rw [hlen]; exact Nat.succ_pos _
+  exact ⟨u', e1, fun lt graph es rest hg hedge huniq hrest =>
+    top_is_default { sys := sys, lifetime := lt } u' key x hkey e2 graph es rest hg hedge huniq hrest⟩
+
+/-- the hypotheses of `top_is_default` are satisfiable: 測試 (freq 9) against 冊 / 是 with huge single-character
+    frequencies; the alternative k-path through the two single characters is trimmed -/
+example :
+    let sys : List Entry := [([1, 2], { text := [28204, 35430], freq := 9 }), ([1], { text := [20874], freq := 9999999 }),
+      ([2], { text := [26159], freq := 9999999 })]
+    let d : PInterval := { start := 0, stop := 2, isPhrase := true, text := [28204, 35430], freq := 9 }
+    let a : PInterval := { start := 0, stop := 1, isPhrase := true, text := [20874], freq := 9999999 }
+    let b : PInterval := { start := 1, stop := 2, isPhrase := true, text := [26159], freq := 9999999 }
+    bestPhrase (lookupAll { sys := sys, lifetime := 0 } [] [1, 2]) = some ([28204, 35430], 9) ∧
+      shortestPath [[a, d], [b]] (fun _ _ => false) 0 2 = some [d] ∧
+      firstConversion [[d], [a, b]] = some [{ start := 0, stop := 2, isPhrase := true, text := [28204, 35430] }] ∧
+      pathScore [d] < pathScore [a, b] := by decide
 
 /-- `learnRepeat` is the fold of the commits of the chosen phrase -/
 theorem learnRepeat_is_commits (sys : List Entry) (key : List Nat) (x : Text) (hx : x ≠ []) (lt : Nat) (rest : List Nat)
